@@ -33,6 +33,12 @@ public:
   /***/
   void store(TransitEvent transit_event, std::string_view const& thread_id, std::string_view const& thread_name)
   {
+    if (_capacity == 0)
+    {
+      // nothing can be retained; indexing the empty vector below would be out of bounds
+      return;
+    }
+
     if (_stored_events.size() < _capacity)
     {
       // We are still growing the vector to max capacity
